@@ -1304,3 +1304,39 @@ Lemma gen_cross_support : forall k, k = CbcaIR.cross_support ->
     exists C, run_kernel k [VInt len; VFlt (Fin inten)] [IM] = Some [C] /\
       arms_arr C nr nc (Cbca.cross_support nr nc I len inten).
 Proof. intros k ->. exact ir_cross_support. Qed.
+
+(* ================================================================ the int16 cells of cross_support
+   The evaluator computes with unbounded integers; the arms are stored in an int16 array.  An arm
+   is at most max(1, cbca_distance - 1) and stays inside the image, so the store is exact as
+   soon as cbca_distance <= 32768 or both sides of the image are <= 32768. *)
+
+Lemma ray_arm_le : forall get dist inten v, ray_arm get dist inten v <= Z.max 1 (dist - 1).
+Proof.
+  intros. unfold ray_arm.
+  pose proof (take_while_span (takes get inten v) (Z.to_nat (dist - 1)) 1) as T.
+  cbv zeta in T. destruct T as (T1 & _ & _).
+  set (k' := length (take_while (takes get inten v) (span 1 (Z.to_nat (dist - 1))))) in *.
+  destruct (0 <? Z.of_nat k') eqn:E; [lia|]. destruct (get 1); lia.
+Qed.
+
+Lemma spec_arm_le : forall I dist inten dd r c, 0 <= spec_arm I dist inten dd r c <= Z.max 1 (dist - 1).
+Proof.
+  intros. split; [apply spec_arm_inside|]. unfold spec_arm. destruct (px I r c); [apply ray_arm_le | lia].
+Qed.
+
+Theorem arms_fit_int16 : forall nr nc len inten I r c k,
+  1 <= len -> 0 <= r < nr -> 0 <= c < nc -> 0 <= k < 4 ->
+  len <= 32768 \/ (nr <= 32768 /\ nc <= 32768) ->
+  0 <= arm_at (Cbca.cross_support nr nc I len inten r c) k <= 32767.
+Proof.
+  intros nr nc len inten I r c k Hlen Hr Hc Hk Hsz.
+  rewrite arms_spec by assumption. cbv zeta.
+  destruct (spec_arm_in_image (mkF nr nc I) len inten r c) as (B1 & B2 & B3 & B4); [exact Hr | exact Hc |].
+  cbn [f_nr f_nc] in *.
+  pose proof (spec_arm_le (mkF nr nc I) len inten DLeft r c).
+  pose proof (spec_arm_le (mkF nr nc I) len inten DRight r c).
+  pose proof (spec_arm_le (mkF nr nc I) len inten DUp r c).
+  pose proof (spec_arm_le (mkF nr nc I) len inten DDown r c).
+  unfold arm_at. cbn [aL aR aT aB].
+  destruct (k =? 0); [lia|]. destruct (k =? 1); [lia|]. destruct (k =? 2); lia.
+Qed.
